@@ -155,13 +155,14 @@ Record c25_desc := {
   c_prod : hspec;
   c_groups : list (nat * nat * (list val -> val -> option (list val * list val)));
   c_consumer : option nat;
+  c_vec : bool;                    (* the slot is a Vec handoff(): any number of items *)
 }.
 
 (* one tick: None = the program panics; otherwise the items per sink *)
 Definition c25_tick (d : c25_desc) (pre : list (list (list val))) (cur : list (list val))
   : option (list (nat * list val)) :=
   let slot0 := nth 0 (c_prod d (map (fun s => [port 0 s]) pre) [port 0 cur]) [] in
-  if Nat.ltb 1 (length slot0) then None else
+  if negb (c_vec d) && Nat.ltb 1 (length slot0) then None else
   let '(slot, outs, bad) :=
     fold_left (fun (acc : list val * list (nat * list val) * bool) g =>
                  let '(slot, outs, bad) := acc in
